@@ -219,9 +219,15 @@ class PeriodicHarness:
             self.rec(ctx, uid + "/dispose/cancels-the-pending-tick", [e[1] for e in w.log if e[0] == "dispose"] == [d0])
             s_before = self.snapshot(P, D, o)
             w.log.clear()
-            res = it.call(P, [sched, ctx.fresh("s", "val")], {})
-            self.rec(ctx, uid + "/periodic/disposed/never-calls-the-action-or-schedules", not [e for e in w.log if e[0] in ("action", "sched")])
-            self.rec(ctx, uid + "/periodic/disposed/returns-None", res is None)
+            res, raised = None, None
+            try:
+                res = it.call(P, [sched, ctx.fresh("s", "val")], {})
+            except PyExc as e:
+                raised = e.value
+            self.rec(ctx, uid + "/periodic/disposed/never-calls-the-action-or-schedules", not [e for e in w.log if e[0] in ("action", "sched")],
+                     detail="a tick whose timer could not be cancelled any more (it had fired, or its handle was overwritten by a late assignment) "
+                            "must find the disposable disposed and do nothing")
+            self.rec(ctx, uid + "/periodic/disposed/returns-None", res is None and raised is None)
             un, diff = self.unchanged(s_before, self.snapshot(P, D, o))
             self.rec(ctx, uid + "/periodic/disposed/frame-nothing-changed-so-it-stays-stopped", un, detail=f"changed: {diff}")
             return
@@ -250,7 +256,11 @@ class PeriodicHarness:
             # stopped afterwards
             s2 = self.snapshot(P, D, o)
             w.log.clear()
-            res2 = it.call(P, [sched, ctx.fresh("s2", "val")], {})
+            res2 = None
+            try:
+                res2 = it.call(P, [sched, ctx.fresh("s2", "val")], {})
+            except PyExc:
+                pass
             self.rec(ctx, uid + "/periodic/after-a-raise/never-calls-the-action-or-schedules", not [e for e in w.log if e[0] in ("action", "sched")])
             un, diff = self.unchanged(s2, self.snapshot(P, D, o))
             self.rec(ctx, uid + "/periodic/after-a-raise/frame-nothing-changed-so-it-stays-stopped", un, detail=f"changed: {diff}")
